@@ -1,4 +1,4 @@
-"""C12 -- closing and reopening a project loses nothing (writer/reader agreement R12.1-R12.9)."""
+"""C12 -- closing and reopening a project loses nothing (writer/reader agreement R12.1-R12.10)."""
 from __future__ import annotations
 
 import ast
@@ -18,7 +18,7 @@ EXPLANATION = (
     "the same method negated on both sides; reserved key rejected.  R12.4: __getstate__/__setstate__ tag and field "
     "order agree.  R12.5: every data-file name written is read and vice versa; dump/load act on the same path "
     "expression.  R12.6 (=R16.3): a content change rebuilt from data reads the file before writing it.  R12.7: the "
-    "history writer's list order equals the loader's index order.  R12.9: no saved field depends on the change's class identity against a class the reader does not rebuild.  R12.8: a non-inline dict key is stored under the "
+    "history writer's list order equals the loader's index order.  R12.10: a save is never skipped on a condition over the data (an empty history still rewrites the file).  R12.9: no saved field depends on the change's class identity against a class the reader does not rebuild.  R12.8: a non-inline dict key is stored under the "
     "index at which it was appended to the reference table (evaluation-order aware).  Value-level round-trip equality is not decided."
 )
 ASSUMPTIONS = ["taint is flow-insensitive with control dependence on if-tests", "json.dumps/loads behave as documented"]
@@ -129,6 +129,11 @@ def _root_attr(e: ast.AST, obj: str) -> Set[str]:
 
 
 def check(ctx, res) -> None:
+    _check_main(ctx, res)
+    _save_is_unconditional(ctx, res)
+
+
+def _check_main(ctx, res) -> None:
     idx = ctx.idx
     w = idx.need_class("rope.base.change.ChangeToData")
     r = idx.need_class("rope.base.change.DataToChange")
@@ -615,3 +620,45 @@ def _data_files(ctx, res) -> None:
     res.add("R12.5", "file-of-name", bool(set(ga) & set(gb)), wr.where,
             "reader and writer map the data name to a file with the same helper call" if set(ga) & set(gb) else
             "reader and writer map the data-file name to a path differently")
+
+
+def _save_is_unconditional(ctx, res) -> None:
+    """R12.10: when saving is enabled, the data file is REWRITTEN at every save -- also when there is nothing to keep.
+    A save that is skipped for empty data leaves the file of an earlier session on disk, and the dropped changes / stale
+    object information come back on reopen.  Every guard of a write_data call is a configuration flag, never the data."""
+    from ..cfg import CFG
+
+    idx = ctx.idx
+    n = 0
+    for f in sorted(idx.functions.values(), key=lambda f: f.qualname):
+        if not f.unit.modname.startswith("rope.base."):
+            continue
+        sites = [c for c in calls_in(f.node) if call_name(c) == "write_data" and len(c.args) >= 2]
+        if not sites:
+            continue
+        cfg = CFG(f.node)
+
+        def is_config(t: ast.AST) -> bool:
+            """`self.<prop>` where <prop> is a property of the class that reads the project preferences"""
+            if not (is_self_attr(t) and f.cls is not None):
+                return False
+            m = idx.find_method(f.cls.qualname, t.attr)
+            return m is not None and "property" in m.decorator_names() and any(
+                call_name(c) == "get" and isinstance(c.func, ast.Attribute) and "prefs" in ast.unparse(c.func.value) for c in calls_in(m.node))
+
+        for c in sites:
+            n += 1
+            wnodes = [nd.id for nd in cfg.node_containing(c)]
+            cfg_false = [(nd.id, d, l) for nd in cfg.nodes if nd.kind == "test" and nd.ast is not None and is_config(nd.ast)
+                         for d, l in cfg.succ[nd.id] if l == "false"]
+            free = cfg.reachable(cfg.entry.id, avoid_nodes=wnodes, avoid_edges=cfg_false,
+                                 labels={"", "true", "false", "return", "case", "nomatch", "break", "continue"})
+            skipping = cfg.exit.id in free
+            short = f.qualname.split(".", 2)[-1]
+            other = [ast.unparse(nd.ast) for nd in cfg.nodes if nd.kind == "test" and nd.ast is not None and not is_config(nd.ast) and nd.id in free]
+            res.add("R12.10", f"{short}|unconditional-save", not skipping, f"{f.unit.rel}:{c.lineno}",
+                    "with saving enabled every normal path rewrites the data file" if not skipping else
+                    f"{short} can return without calling write_data although saving is enabled (tests on the way: {other[:3]}): when the history / object "
+                    "information is empty at close, the file written by an earlier session stays on disk and its contents reappear when the project is reopened",
+                    function=f.qualname)
+    res.floor("R12.10", "write_data call sites in rope/base", n, 2)
